@@ -116,6 +116,23 @@ func TestC03(t *testing.T) {
 	})
 }
 
+// TestC03Elem : the size, count and order clauses of C03 for instantiations with a zero-size and a
+// wide element type.
+func TestC03Elem(t *testing.T) {
+	evid.Run(t, evid.Prop[ElemCase]{
+		ID:   "C03",
+		Rule: "v1 join, v2 join and v2 unite instantiated with struct{} (only counts observable) and with a 200-byte struct, JoinSize 1..8 and 1025, copy/no-copy, with and without timeout, small scripts of writes; oracle: no empty output, join slices <= JoinSize, element count preserved, (wide) order preserved, run completes; non-trivial = at least 2 input steps and something written; distinct = distinct case JSON",
+		Gen:  GenElem,
+		Run: func(c ElemCase) evid.Outcome {
+			n := 0
+			for _, l := range c.Lens {
+				n += l
+			}
+			return evid.Outcome{Err: CheckElem(t, c), NonTrivial: len(c.Lens) >= 2 && n > 0, Classes: []string{c.Kind, "elem:" + c.Elem}, Summary: "see script"}
+		},
+	})
+}
+
 func TestC08(t *testing.T) {
 	run(t, spec{
 		id:     "C08",
